@@ -1730,7 +1730,14 @@ func (fc *fnCtx) execBinOp(st *State, x *ssa.BinOp) {
 		fc.vals[x] = fc.freshVal(st, x.Name(), x.Type())
 		return
 	}
-	fc.setVal(x, res)
+	r := fc.setVal(x, res)
+	if x.Op == token.QUO && isFloat(t) && !fc.specMode {
+		if _, isConst := x.Y.(*ssa.Const); !isConst {
+			// sign of a real quotient by a variable divisor (solvers do not derive it through
+			// the quantified context of a VC): valid facts of division over the reals
+			fc.assume(st, fmt.Sprintf("(and (=> (and (> %[2]s 0.0) (>= %[1]s 0.0)) (>= %[3]s 0.0)) (=> (and (> %[2]s 0.0) (<= %[1]s 0.0)) (<= %[3]s 0.0)) (=> (and (< %[2]s 0.0) (>= %[1]s 0.0)) (<= %[3]s 0.0)) (=> (and (< %[2]s 0.0) (<= %[1]s 0.0)) (>= %[3]s 0.0)))", a.T, b.T, r.T))
+		}
+	}
 }
 
 // binop translates a Go binary operation. spec=true suppresses obligations.
@@ -2291,7 +2298,12 @@ func (fc *fnCtx) afterStore(st *State, a *ssa.Alloc) {
 			continue
 		}
 		t.boundAfters[i] = true
-		env := fc.specEnv(st, nil)
+		// the name in the clause denotes the variable just assigned (another local may share it)
+		var own map[string]Val
+		if v := st.cells[a]; v != "" {
+			own = map[string]Val{as.Var: {T: v, Ty: a.Type().(*types.Pointer).Elem()}}
+		}
+		env := fc.specEnv(st, own)
 		g, err := env.goal(as.Assert.Expr)
 		if err != nil {
 			fc.specError(as.Assert, err)
